@@ -178,7 +178,9 @@ var c20Pool = []c20Line{
 }
 
 // echo: a bare expression statement prints what দেখাও prints for it
-var c20Echo = []string{"5", "0", "-5", "1 + 2", "2.5", "1000000", "0.1 + 0.2", "\"abc\"", "\"\"", "\"a b\"", KwTrue, KwFalse, "nil", "2 < 3", "!" + KwTrue, "\"a\" + 1", "7 % 3", "2 ** 10", "1 == 2", "(3)", FnLen + "([1, 2])"}
+var c20Echo = []string{"5", "0", "-5", "1 + 2", "2.5", "1000000", "0.1 + 0.2", "\"abc\"", "\"\"", "\"a b\"", KwTrue, KwFalse, "nil", "2 < 3", "!" + KwTrue, "\"a\" + 1", "7 % 3", "2 ** 10", "1 == 2", "(3)", FnLen + "([1, 2])",
+	// text that would mean something to a formatter, an escape-less backslash, Bangla, a long value
+	"\"50% off\"", "\"%%\"", "\"100%\"", "\"%s and %d\"", "\"a\\nb\"", "\"\u0995\u09b2\u09ae %v\"", "\"x\" + \"%\" + \"y\"", "[1, \"%d\"]", "({k: \"%s\"})"}
 
 func c20Marker(i int) string { return fmt.Sprintf("%s \"#%d#\";", KwPrint, i) }
 
